@@ -142,11 +142,14 @@ CHECKS = {
                      "__item are proved from their real bodies equal to the recursive specification ROWS (one row per node while "
                      "level < maxlevel or no bound, childiter-ordered children, 'has a following sibling' flag appended per level; "
                      "root row empty, otherwise joined bar/blank segments plus continue/end branch); the built-in styles pass "
-                     "three literals of equal width (syntactic obligations).",
+                     "three literals of equal width (syntactic obligations). Text layout: _format_row_any, RenderTree.__str__ and "
+                     "by_attr (nested generators executed in place) are proved to print, for every row in order, pre + first line and "
+                     "fill + each further line of the node's repr / selected attribute (list/tuple values line by line, an empty "
+                     "value as one empty line), joined by newlines.",
                 tech="contract-based deductive verification (z3 sequences/strings/datatypes), inductive lemma in SMT",
-                note="The closed-form reading of ROWS is lemma L8 (Lean, childiter = identity). str(RenderTree), by_attr(), "
-                     "_format_row_any and the Node/AnyNode/SymlinkNode reprs "
-                     "are covered by the BOUNDED stand-in run in both tiers (evidence.bounded_parts), never counted as proved."),
+                note="The closed-form reading of ROWS is lemma L8 (Lean, childiter = identity). The Node/AnyNode/SymlinkNode reprs "
+                     "(util._repr) are covered by the BOUNDED stand-in run in both tiers (evidence.bounded_parts) plus a syntactic "
+                     "obligation on the _repr call sites, never counted as proved; splitlines/join/repr are uninterpreted."),
     "C17": dict(cat="other", design="3/C17",
                 text="IDENT obligations decided by a kind analysis of the real AST of every function of the listed modules: no truth "
                      "test, comparison, membership test, hashing, len(), iteration, subscription, list.index/remove/count or "
